@@ -10,6 +10,8 @@ CONSTANTS
  DevNoExpiry = FALSE
  DevLogoutKeeps = FALSE
  DevLimiterPerWindowStart = TRUE
+ DevAnyCookieValid = FALSE
+ PairJars = FALSE
 INIT Init
 NEXT Next
 INVARIANTS C38_SessionRequired C38_RateLimit
